@@ -1,2 +1,19 @@
 """per-property MANIFEST entries, appended as the checks are built"""
-EXTRA = []
+
+
+def c10(check):
+    check("C10", "exploration",
+          "Seeded search over refinement histories: each run is a real run() execution whose refined cells are steered by a "
+          "stub calculator (hot spot, two hot spots, alternating, random, natural), over meshes, adpt_fac, symmetry settings, "
+          "regular and tetrahedral grids, all four storage modes, serial or simulated ray, with all files behind SimDisk. After "
+          "every iteration the saved/returned integral is recomputed from scratch as sum factor_i*payload_i; saved npz and per-K "
+          "pickle files are read back. A separate run class injects ENOSPC/EIO (may fail, never wrong). Evidence over sampled "
+          "histories, not a proof.",
+          "Payload of a K-point is what the driver received at KpointBZ.set_result; equality is 1e-10 of the natural scale of the "
+          "sum; stub calculators stand in for Data_K in most runs (real Data_K_R + static calculators in a fraction).",
+          "deterministic simulation: seeded refinement histories and storage modes, weighted-sum reference model evaluated "
+          "after every iteration, I/O fault injection, minimised replay files",
+          "DESIGN.md §4 C10")
+
+
+EXTRA = [c10]
